@@ -13,7 +13,11 @@ every access of the high-level command streams and CPU passes.
 Serialisation stage (harness/serial_lib.py, design.d/Serialise.md) on the same compilations: the Lean model of npu_serialisation.py and of
 the reported memory figures (Model/Serialise.lean, Model/Reported.lean, theorems in Props/C12Serial.lean) must reproduce the memory
 tensors, the operand order of the call operators and the CSV / console figures; the Lean Spec (Spec/Serialise.lean) judges the
-constants tensor, the scratch tensors and the operand order of the OUTPUT FILE against the source constants and Vela's tensors."""
+constants tensor, the scratch tensors and the operand order of the OUTPUT FILE against the source constants and Vela's tensors.
+Raw-output stream (harness/raw_stream.py, design.d/RawOutput.md) on the same compilations: the real rawdata_writer.write_rawdata_output
+on the compiled graph; the .npz must be what Model/RawOutput.lean says (theorems in Props/C12Raw.lean), its constants blob, scratch sizes
+and input / output offsets must be those of the TFLite output of the same compilation, and the Lean Spec (Spec/RawOutput.lean) judges
+the .npz alone (every listed input / output inside the published scratch size)."""
 import csv
 import io
 import re
@@ -25,6 +29,7 @@ import inplace_lib
 import liverange_lib
 import pipe_common
 import pipeline
+import raw_stream
 import sched_lib
 import serial_lib
 from common import Check, main_wrapper
@@ -86,7 +91,7 @@ def arena_line(model, align, plan_buffer=None):
 def main():
     ck = Check("C12", "translation_validation")
     ck.lean_stage(["VelaVerif.Props.C12", "VelaVerif.Props.C12LiveRange", "VelaVerif.Props.C12InPlace", "VelaVerif.Props.C12Sched",
-                   "VelaVerif.Props.C12Serial"])
+                   "VelaVerif.Props.C12Serial", "VelaVerif.Props.C12Raw"])
     n = 6000 if ck.thorough else 320
     # gen2:<p> = the OUTPUT of profile <p> compiled again (same or other options), sometimes a third time (harness/regen.py):
     # the final file must still carry ONE plan, and that plan must still cover what the passed-through Ethos-U operators touch
@@ -98,10 +103,11 @@ def main():
     inplace_lib.install_profile()
     sched_lib.install()          # ... of the Scheduler / CascadeBuilder memory bookkeeping (design.d/SchedMem.md)
     serial_lib.install(every=4 if ck.thorough else 1)         # ... of npu_serialisation / allocate_tensors / the weight encoder (design.d/Serialise.md)
+    raw_stream.install()         # ... of compiler_driver: the raw output (.npz) of every compiled graph (design.d/RawOutput.md)
     if sched_lib.replay(ck) or serial_lib.replay(ck):
         return
     ip_stub_stats = inplace_lib.stage(ck, [], prefix="inplace_stub_", compiled=False)     # function level first
-    outs = pipe_common.run_corpus(ck, n, profiles=profiles, want={"out_model": True, "extra": serial_lib.extra_c12},
+    outs = pipe_common.run_corpus(ck, n, profiles=profiles, want={"out_model": True, "extra": raw_stream.extra_c12},
                                   corpus_first=False, sweep=True)
     if ck.replay_arg is None:
         # boundary shapes of the in-place decision chain (harness/inplace_nets.py): every variant once (4x thorough)
@@ -247,12 +253,15 @@ def main():
     # generated tensors / subgraph descriptions through the real copy functions and the real serialiser (function level)
     serial_stub = serial_lib.stub(serial_lib.stub_rng(ck.seed), 20000 if ck.thorough else 2000) if ck.replay_arg is None else []
     se_stats = serial_lib.stage(ck, outs + sched_outs + serial_stub)
+    # the second output format: .npz = model, = TFLite output of the same compilation, accepted by the Lean Spec
+    raw_stats = raw_stream.stage(ck, outs, raw_stream.FIELDS_C12)
     ck.finish({
         **lr_stats,
         **ip_stub_stats,
         **ip_stats,
         **sc_stats,
         **se_stats,
+        **raw_stats,
         "programs": programs,
         "disagreements_checked": rejected,
         "evaluations": len(outs),
@@ -267,7 +276,10 @@ def main():
                 "the real values of those calls. serial_model_requests = one `serial` and one `reported` request per compilation that "
                 "reaches the serialiser (model of npu_serialisation.py / of the reported memory figures = real, digests of every placed "
                 "range of the constants tensor) + generated calls of the real copy functions / serialiser; serial_spec_requests = Lean "
-                "Spec verdicts on the constants tensor, scratch tensors and operand order of the output file and on the reported figures",
+                "Spec verdicts on the constants tensor, scratch tensors and operand order of the output file and on the reported figures. "
+                "raw_model_requests = compilations whose raw output (.npz, or the error raised) is compared with Model/RawOutput; "
+                "raw_compared_with_tflite = .npz files compared in Lean with the TFLite output of the same compilation and judged by "
+                "Spec/RawOutput",
         "exhaustive": False,
     }, assumptions=["liveness is taken from the operator order of the output graph; an input dying at and an output born at the same "
                     "Ethos-U operator may share bytes (ordering inside the stream is C03's subject)",
@@ -278,7 +290,10 @@ def main():
                     "own objects (high-level commands, cascaded passes) in the harness process",
                     "serialisation: the source constants are the streams captured when encode_weight_and_scale_tensor returned them and "
                     "the values of the constant feature maps of Vela's graph; addresses and storage sizes are read from Vela's tensors; "
-                    "the memory tensors of the output file are identified by their name suffix"])
+                    "the memory tensors of the output file are identified by their name suffix",
+                    "raw output: this repository writes the .npz for .tosa inputs only (no --output-format switch); the harness calls "
+                    "the real write_rawdata_output on the compiled graph when compiler_driver has returned, before the TFLite writer "
+                    "runs; the .npz is read back with NumPy (allow_pickle); a listed tensor occupies prod(shape) * elem_size bytes"])
 
 
 main_wrapper(main)
